@@ -199,6 +199,8 @@ pub fn first_uninitialized_reward(infos: &[WhirlpoolRewardInfo; 3]) -> (r: Optio
     if !infos[0].initialized() { Some(0) } else if !infos[1].initialized() { Some(1) } else if !infos[2].initialized() { Some(2) } else { None }
 }
 use crate::state_core::{Whirlpool, WhirlpoolRewardInfo, NUM_REWARDS};
+#[allow(unused_imports)]
+use crate::state_core::{MIN_TICK_INDEX, MAX_TICK_INDEX};
 use crate::tick_math::{tick_of, tick_index_from_sqrt_price};
 use crate::lebytes::*;
 impl WhirlpoolRewardInfo {
@@ -224,7 +226,7 @@ impl Whirlpool {
             &&& w.liquidity == 0 && w.protocol_fee_owed_a == 0 && w.protocol_fee_owed_b == 0 && w.fee_growth_global_a == 0 && w.fee_growth_global_b == 0
             &&& (forall|k: int| 0 <= k < 3 ==> !(#[trigger] w.reward_infos[k]).is_init() && w.reward_infos[k].emissions_per_second_x64 == 0 && w.reward_infos[k].growth_global_x64 == 0)
             &&& w.reward_infos[0].extension == whirlpools_config.data.reward_emissions_super_authority.0 }),
-//@ rewrite /!\(MIN_SQRT_PRICE_X64\.\.=MAX_SQRT_PRICE_X64\)\.contains\(&sqrt_price\)/ => /!(MIN_SQRT_PRICE_X64 <= sqrt_price && sqrt_price <= MAX_SQRT_PRICE_X64)/
+//@ rewrite /!\((\w+)\.\.=(\w+)\)\.contains\(&(\w+)\)/ => /!(\1 <= \3 && \3 <= \2)/
 //@ rewrite /fee_tier_index\.to_le_bytes\(\)/ => /fee_tier_index.to_le_bytes_v()/
 //@ inject at /^\s*\{/
         proof { broadcast use ax_pk_lt_irrefl; }
